@@ -25,6 +25,7 @@ from krrood.ontomatic.property_descriptor.property_descriptor import PropertyDes
 class Org(Symbol):
     name: str
     members: Set[Person] = field(default_factory=set)
+    attendees: List[Visitor] = field(default_factory=list)
     sub_org_of: List[Org] = field(default_factory=list)
     part_of: List[Org] = field(default_factory=list)
     has_part: List[Org] = field(default_factory=list)
@@ -230,8 +231,19 @@ class HeadOf(WorksFor):
 
 
 @dataclass
-class Attends(PropertyDescriptor):
-    pass
+class Attends(PropertyDescriptor, HasInverseProperty):
+    @classmethod
+    def get_inverse(cls):
+        return Attendees
+
+
+@dataclass
+class Attendees(PropertyDescriptor, HasInverseProperty):
+    """inverse of Attends: its field for a chair lives on the chair's role taker - on a subclass of the declared one"""
+
+    @classmethod
+    def get_inverse(cls):
+        return Attends
 
 
 @dataclass
@@ -288,6 +300,7 @@ VOrg.members = Member(VOrg, "members")
 Org.sub_org_of = SubOrgOf(Org, "sub_org_of")
 Unit.under = SubOrgOf(Unit, "under")
 Delegate.attends = Attends(Delegate, "attends")
+Org.attendees = Attendees(Org, "attendees")
 Chair.chairs = Chairs(Chair, "chairs")
 Convener.leads = Leads(Convener, "leads")
 Boss.runs = Runs(Boss, "runs")
